@@ -29,8 +29,8 @@ func (w *World) callSites(names ...string) []Site {
 	}
 	var out []Site
 	for _, fn := range w.Funcs {
-		if w.uniqueCallSite(fn) != nil {
-			continue // an absorbed helper: visited with its caller
+		if w.absorbable(fn) {
+			continue // an absorbed helper: visited with each of its callers
 		}
 		eachInstr(fn, func(in ssa.Instruction) {
 			if c := callOf(in); c != nil {
@@ -119,8 +119,8 @@ func (w *World) chanKey(v ssa.Value) string {
 func (w *World) chanOps() []ChanOp {
 	var out []ChanOp
 	for _, fn := range w.Funcs {
-		if w.uniqueCallSite(fn) != nil {
-			continue // an absorbed helper: visited with its caller
+		if w.absorbable(fn) {
+			continue // an absorbed helper: visited with each of its callers
 		}
 		eachInstr(fn, func(in ssa.Instruction) {
 			switch x := in.(type) {
@@ -200,8 +200,8 @@ type FieldAccess struct {
 func (w *World) fieldAccesses(owner string) []FieldAccess {
 	var out []FieldAccess
 	for _, fn := range w.Funcs {
-		if w.uniqueCallSite(fn) != nil {
-			continue // an absorbed helper: visited with its caller
+		if w.absorbable(fn) {
+			continue // an absorbed helper: visited with each of its callers
 		}
 		eachInstr(fn, func(in ssa.Instruction) {
 			fa, ok := in.(*ssa.FieldAddr)
@@ -252,8 +252,8 @@ func stripToAlloc(v ssa.Value) (*ssa.Alloc, bool) {
 func (w *World) goSites() []Site {
 	var out []Site
 	for _, fn := range w.Funcs {
-		if w.uniqueCallSite(fn) != nil {
-			continue // an absorbed helper: visited with its caller
+		if w.absorbable(fn) {
+			continue // an absorbed helper: visited with each of its callers
 		}
 		eachInstr(fn, func(in ssa.Instruction) {
 			if _, ok := in.(*ssa.Go); ok {
